@@ -93,11 +93,11 @@ theorem plain_at (pre mid post : List Nat) (hm : plainL mid) (i : Nat) (h : i < 
   exact List.getElem?_eq_getElem h
 
 /-- the finder state `parse` is in when the next thing to look at starts at `p` -/
-def stAt (acc : List (Tag R)) (o m : Nat) : PState R :=
-  { storage := acc, stack := [], loopChain := [], isChild := false, off := o, mtch := m }
+def stAt (stk : List (Frame R)) (acc : List (Tag R)) (o m : Nat) : PState R :=
+  { storage := acc, stack := stk, loopChain := [], isChild := false, off := o, mtch := m }
 
-theorem finderNext_stAt (c : List Nat) (acc : List (Tag R)) (o m o' m' : Nat)
-    (h : next c o = .ok (o', m')) : finderNext c (stAt acc o m) = .ok (stAt acc o' m') := by
+theorem finderNext_stAt (c : List Nat) (stk : List (Frame R)) (acc : List (Tag R)) (o m o' m' : Nat)
+    (h : next c o = .ok (o', m')) : finderNext c (stAt stk acc o m) = .ok (stAt stk acc o' m') := by
   simp [finderNext, stAt, h, bind, Except.bind]
 
 /-- one `{var:path}` / `{raw:path}` at `p`, handled by `stepVar` -/
@@ -105,10 +105,10 @@ theorem stepVar_seg (c : List Nat) (hn : c.length + 16 < 4294967296) (raw : Bool
     (pre pa post : List Nat) (w : List Nat) (hw : w.length = 5)
     (hc : c = pre ++ ((w ++ pa ++ [125]) ++ post))
     (hp : plainL pa) (h0 : 0 < pa.length) (h255 : pa.length ≤ 255)
-    (acc : List (Tag R)) (m o' m' : Nat)
+    (stk : List (Frame R)) (acc : List (Tag R)) (m o' m' : Nat)
     (hnext : next c (pre.length + 5 + pa.length + 1) = .ok (o', m')) :
-    stepVar c (stAt acc (pre.length + 5) m) raw =
-      .ok (stAt (acc ++ [if raw then Tag.raw ⟨pre.length + 5, pa.length, 0, 0⟩
+    stepVar c (stAt stk acc (pre.length + 5) m) raw =
+      .ok (stAt stk (acc ++ [if raw then Tag.raw ⟨pre.length + 5, pa.length, 0, 0⟩
                           else Tag.var ⟨pre.length + 5, pa.length, 0, 0⟩]) o' m') := by
   -- the finder from the offset after the opener: skips the path, reports the `}`
   have hskip : next c (pre.length + 5) = next c (pre.length + 5 + pa.length) := by
@@ -121,9 +121,9 @@ theorem stepVar_seg (c : List Nat) (hn : c.length + 16 < 4294967296) (raw : Bool
     apply next_at_close
     have := get_mid (pre ++ w ++ pa) [125] post 0 (by simp)
     simpa [hc, List.append_assoc, hw, Nat.add_assoc] using this
-  have h1 : finderNext c (stAt acc (pre.length + 5) m) =
-      .ok (stAt acc (pre.length + 5 + pa.length + 1) 1) :=
-    finderNext_stAt c acc _ m _ _ (by rw [hskip, hclose])
+  have h1 : finderNext c (stAt stk acc (pre.length + 5) m) =
+      .ok (stAt stk acc (pre.length + 5 + pa.length + 1) 1) :=
+    finderNext_stAt c stk acc _ m _ _ (by rw [hskip, hclose])
   have hlen : (pre.length + 5 + pa.length + 1 - (pre.length + 5) - W1.inLineSuffixLength) % 256 = pa.length := by
     have : W1.inLineSuffixLength = 1 := by decide
     rw [this]; omega
@@ -131,10 +131,10 @@ theorem stepVar_seg (c : List Nat) (hn : c.length + 16 < 4294967296) (raw : Bool
     have : bits_VariableTag_Length = 16 := by decide
     simp only [trunc, this]; omega
   simp only [stepVar, h1, bind, Except.bind]
-  have hle : (stAt acc (pre.length + 5 + pa.length + 1) 1 : PState R).mtch = W1.lineEndID := rfl
+  have hle : (stAt stk acc (pre.length + 5 + pa.length + 1) 1 : PState R).mtch = W1.lineEndID := rfl
   simp only [hle, if_true]
-  have hoff : (stAt acc (pre.length + 5) m : PState R).off = pre.length + 5 := rfl
-  have hoff2 : (stAt acc (pre.length + 5 + pa.length + 1) 1 : PState R).off = pre.length + 5 + pa.length + 1 := rfl
+  have hoff : (stAt stk acc (pre.length + 5) m : PState R).off = pre.length + 5 := rfl
+  have hoff2 : (stAt stk acc (pre.length + 5 + pa.length + 1) 1 : PState R).off = pre.length + 5 + pa.length + 1 := rfl
   simp only [hoff, hoff2, hlen]
   have hne : pa.length ≠ 0 := by omega
   simp only [ne_eq, hne, not_false_eq_true, if_true, htr]
@@ -186,12 +186,12 @@ theorem exprs_math (cfg : ScanCfg R) (c pre e post : List Nat)
 theorem stepMath_seg (cfg : ScanCfg R) (c : List Nat) (hn : c.length + 16 < 4294967296)
     (pre e post : List Nat) (w : List Nat) (hw : w.length = 6)
     (hc : c = pre ++ ((w ++ e ++ [125]) ++ post)) (hp : plainL e)
-    (acc : List (Tag R)) (o' m' : Nat)
+    (stk : List (Frame R)) (acc : List (Tag R)) (o' m' : Nat)
     (hnext : next c (pre.length + 6 + e.length + 1) = .ok (o', m'))
     (items : List (Item R))
     (hex : exprs cfg c [] (pre.length + 6) (pre.length + 6 + e.length) = .ok items) :
-    stepMath cfg c (stAt acc (pre.length + 6) 4) =
-      .ok (stAt (acc ++ [.math items pre.length (pre.length + 6 + e.length + 1)]) o' m') := by
+    stepMath cfg c (stAt stk acc (pre.length + 6) 4) =
+      .ok (stAt stk (acc ++ [.math items pre.length (pre.length + 6 + e.length + 1)]) o' m') := by
   have hskip : next c (pre.length + 6) = next c (pre.length + 6 + e.length) := by
     apply next_skip c e.length (pre.length + 6)
     · rw [hc]; simp; omega
@@ -202,22 +202,22 @@ theorem stepMath_seg (cfg : ScanCfg R) (c : List Nat) (hn : c.length + 16 < 4294
     apply next_at_close
     have := get_mid (pre ++ w ++ e) [125] post 0 (by simp)
     simpa [hc, List.append_assoc, hw, Nat.add_assoc] using this
-  have h1 : finderNext c (stAt acc (pre.length + 6) 4) =
-      .ok (stAt acc (pre.length + 6 + e.length + 1) 1) :=
-    finderNext_stAt c acc _ 4 _ _ (by rw [hskip, hclose])
-  have h2 : finderNext c (stAt acc (pre.length + 6 + e.length + 1) 1) = .ok (stAt acc o' m') :=
-    finderNext_stAt c acc _ 1 _ _ hnext
-  have hscan : mathScan c (c.length + 2) (stAt acc (pre.length + 6 + e.length + 1) 1 : PState R) 0 =
-      .ok (stAt acc o' m', pre.length + 6 + e.length + 1) := by
+  have h1 : finderNext c (stAt stk acc (pre.length + 6) 4) =
+      .ok (stAt stk acc (pre.length + 6 + e.length + 1) 1) :=
+    finderNext_stAt c stk acc _ 4 _ _ (by rw [hskip, hclose])
+  have h2 : finderNext c (stAt stk acc (pre.length + 6 + e.length + 1) 1) = .ok (stAt stk acc o' m') :=
+    finderNext_stAt c stk acc _ 1 _ _ hnext
+  have hscan : mathScan c (c.length + 2) (stAt stk acc (pre.length + 6 + e.length + 1) 1 : PState R) 0 =
+      .ok (stAt stk acc o' m', pre.length + 6 + e.length + 1) := by
     rw [show c.length + 2 = (c.length + 1) + 1 by omega]
-    have hm : (stAt acc (pre.length + 6 + e.length + 1) 1 : PState R).mtch = 1 := rfl
+    have hm : (stAt stk acc (pre.length + 6 + e.length + 1) 1 : PState R).mtch = 1 := rfl
     have hle : W1.lineEndID = 1 := by decide
     simp only [mathScan, hm, hle, ne_eq, not_true_eq_false, and_false, if_false, pure, Except.pure, bind,
       Except.bind, if_true, h2]
     rfl
   simp only [stepMath, h1, hscan, bind, Except.bind]
-  have hoff : (stAt acc (pre.length + 6) 4 : PState R).off = pre.length + 6 := rfl
-  have hch : (stAt acc o' m' : PState R).loopChain = [] := rfl
+  have hoff : (stAt stk acc (pre.length + 6) 4 : PState R).off = pre.length + 6 := rfl
+  have hch : (stAt stk acc o' m' : PState R).loopChain = [] := rfl
   have hsuf : pre.length + 6 + e.length + 1 - W1.inLineSuffixLength = pre.length + 6 + e.length := by
     have : W1.inLineSuffixLength = 1 := by decide
     rw [this]; omega
@@ -228,9 +228,9 @@ theorem stepMath_seg (cfg : ScanCfg R) (c : List Nat) (hn : c.length + 16 < 4294
     not_false_eq_true, if_true]
   rfl
 
-theorem step_var_dispatch (cfg : ScanCfg R) (c : List Nat) (acc : List (Tag R)) (o : Nat) :
-    step cfg c (stAt acc o 2) = stepVar c (stAt acc o 2) false ∧
-    step cfg c (stAt acc o 3) = stepVar c (stAt acc o 3) true := by
+theorem step_var_dispatch (cfg : ScanCfg R) (c : List Nat) (stk : List (Frame R)) (acc : List (Tag R)) (o : Nat) :
+    step cfg c (stAt stk acc o 2) = stepVar c (stAt stk acc o 2) false ∧
+    step cfg c (stAt stk acc o 3) = stepVar c (stAt stk acc o 3) true := by
   constructor <;> (simp only [step, stAt]; rfl)
 
 /-- number of `{var:}` / `{raw:}` segments: the number of `step`s the main loop takes -/
@@ -245,50 +245,50 @@ theorem nTags_le (segs : List Seg) : nTags segs ≤ (printSegs segs).length := b
   | cons sg rest ih =>
     cases sg <;> simp [nTags, printSegs, printSeg] <;> omega
 
-/-- the main loop of `parse` over the printed segments -/
-theorem parseMain_segs (cfg : ScanCfg R) (c : List Nat) (hn : c.length + 16 < 4294967296) :
-    ∀ (segs : List Seg) (pre : List Nat) (acc : List (Tag R)) (fuel o m : Nat),
-      c = pre ++ printSegs segs → (∀ s ∈ segs, s.ok) → (∀ s ∈ segs, s.scanOk cfg.readNum) →
-      next c pre.length = .ok (o, m) → nTags segs + 1 ≤ fuel →
-      parseMain cfg c fuel (stAt acc o m) = .ok (stAt (acc ++ tagsOf cfg c pre.length segs) c.length 0) := by
+/-- the main loop of `parse` over the printed segments, inside any stack of open block containers:
+it consumes one `step` per tag and arrives at the Finder's next match after the segments -/
+theorem parseMain_segs (cfg : ScanCfg R) (c : List Nat) (hn : c.length + 16 < 4294967296)
+    (stk : List (Frame R)) (post : List Nat) :
+    ∀ (segs : List Seg) (pre : List Nat) (acc : List (Tag R)) (fuel o m o' m' : Nat),
+      c = pre ++ (printSegs segs ++ post) → (∀ s ∈ segs, s.ok) → (∀ s ∈ segs, s.scanOk cfg.readNum) →
+      next c pre.length = .ok (o, m) →
+      next c (pre.length + (printSegs segs).length) = .ok (o', m') →
+      parseMain cfg c (fuel + nTags segs) (stAt stk acc o m) =
+        parseMain cfg c fuel (stAt stk (acc ++ tagsOf cfg c pre.length segs) o' m') := by
   intro segs
   induction segs with
   | nil =>
-    intro pre acc fuel o m hc _ _ hnext hf
-    simp only [printSegs, List.append_nil] at hc
-    have hend : next c pre.length = .ok (c.length, 0) := by
-      apply next_plain_end c pre.length (by rw [hc]; exact Nat.le_refl _)
-      intro i h1 h2; rw [hc] at h2; omega
-    rw [hend] at hnext
-    simp only [Except.ok.injEq, Prod.mk.injEq] at hnext
-    obtain ⟨rfl, rfl⟩ := hnext
-    cases fuel with
-    | zero => omega
-    | succ f => simp [parseMain, stAt, tagsOf]
+    intro pre acc fuel o m o' m' hc _ _ hnext hfin
+    simp only [printSegs, List.length_nil, Nat.add_zero] at hfin
+    rw [hnext] at hfin
+    simp only [Except.ok.injEq, Prod.mk.injEq] at hfin
+    obtain ⟨rfl, rfl⟩ := hfin
+    simp [nTags, tagsOf]
   | cons sg rest ih =>
-    intro pre acc fuel o m hc hok hsc hnext hf
+    intro pre acc fuel o m o' m' hc hok hsc hnext hfin
     have hokr : ∀ s ∈ rest, s.ok := fun s hs => hok s (List.mem_cons_of_mem _ hs)
     have hscr : ∀ s ∈ rest, s.scanOk cfg.readNum := fun s hs => hsc s (List.mem_cons_of_mem _ hs)
     have hsg := hok sg (List.mem_cons_self ..)
     cases sg with
     | text s =>
       simp only [Seg.ok] at hsg
-      simp only [printSegs, printSeg] at hc
+      simp only [printSegs, printSeg] at hc hfin
       have hskip : next c pre.length = next c (pre.length + s.length) := by
         apply next_skip c s.length pre.length (by rw [hc]; simp)
         intro i hi
-        have := plain_at pre s (printSegs rest) hsg i hi
-        rw [hc]; exact this
-      have := ih (pre ++ s) acc fuel o m (by rw [hc, List.append_assoc]) hokr hscr
-        (by rw [List.length_append, ← hskip]; exact hnext) (by simp only [nTags] at hf; exact hf)
-      simpa [tagsOf, List.length_append] using this
+        have := plain_at pre s (printSegs rest ++ post) hsg i hi
+        rw [hc]; simpa [List.append_assoc] using this
+      have := ih (pre ++ s) acc fuel o m o' m' (by rw [hc]; simp [List.append_assoc]) hokr hscr
+        (by rw [List.length_append, ← hskip]; exact hnext)
+        (by rw [← hfin]; congr 1; simp [List.length_append]; omega)
+      simpa [tagsOf, nTags, List.length_append] using this
     | var pa =>
       simp only [Seg.ok] at hsg
       obtain ⟨hp, h0, h255⟩ := hsg
-      simp only [printSegs, printSeg] at hc
+      simp only [printSegs, printSeg] at hc hfin
       have hat : next c pre.length = .ok (pre.length + 5, 2) := by
-        have g := fun i (hi : i < 5) => get_mid pre [123, 118, 97, 114, 58] (pa ++ [125] ++ printSegs rest) i (by simpa using hi)
-        have hc' : c = pre ++ ([123, 118, 97, 114, 58] ++ (pa ++ [125] ++ printSegs rest)) := by
+        have g := fun i (hi : i < 5) => get_mid pre [123, 118, 97, 114, 58] (pa ++ [125] ++ (printSegs rest ++ post)) i (by simpa using hi)
+        have hc' : c = pre ++ ([123, 118, 97, 114, 58] ++ (pa ++ [125] ++ (printSegs rest ++ post))) := by
           rw [hc]; simp [List.append_assoc]
         apply next_at_var c pre.length (by omega)
         · have := g 0 (by omega); rw [hc']; simpa using this
@@ -299,35 +299,35 @@ theorem parseMain_segs (cfg : ScanCfg R) (c : List Nat) (hn : c.length + 16 < 42
       rw [hat] at hnext
       simp only [Except.ok.injEq, Prod.mk.injEq] at hnext
       obtain ⟨rfl, rfl⟩ := hnext
-      -- the finder result after the tag
       have hlen_le : pre.length + 5 + pa.length + 1 ≤ c.length := by rw [hc]; simp; omega
-      obtain ⟨o', m', hn', _⟩ := next_safe_total c (pre.length + 5 + pa.length + 1) hlen_le
-      cases fuel with
-      | zero => omega
-      | succ f =>
-        have hstep := stepVar_seg c hn false pre pa (printSegs rest) [123, 118, 97, 114, 58] rfl
-          (by rw [hc]) hp h0 h255 acc 2 o' m' hn'
-        simp only [parseMain, stAt, ne_eq, show ¬ ((2 : Nat) = 0) by decide, not_false_eq_true, if_true]
-        have hd := (step_var_dispatch cfg c acc (pre.length + 5)).1
-        simp only [stAt] at hd hstep
-        rw [hd, hstep]
-        simp only [bind, Except.bind, Bool.false_eq_true, if_false]
-        have := ih (pre ++ ([123, 118, 97, 114, 58] ++ pa ++ [125])) (acc ++ [Tag.var ⟨pre.length + 5, pa.length, 0, 0⟩])
-          f o' m' (by rw [hc]; simp [List.append_assoc]) hokr hscr
-          (by simp only [List.length_append, List.length_cons, List.length_nil]
-              rw [show pre.length + (5 + pa.length + (0 + 1)) = pre.length + 5 + pa.length + 1 by omega]
-              exact hn') (by simp only [nTags] at hf; omega)
-        simp only [stAt] at this
-        rw [this]
-        simp [tagsOf, List.length_append, List.append_assoc]
-        congr 1; omega
+      obtain ⟨o1, m1, hn1, _⟩ := next_safe_total c (pre.length + 5 + pa.length + 1) hlen_le
+      have hstep := stepVar_seg c hn false pre pa (printSegs rest ++ post) [123, 118, 97, 114, 58] rfl
+        (by rw [hc]; simp [List.append_assoc]) hp h0 h255 stk acc 2 o1 m1 hn1
+      rw [show fuel + nTags (Seg.var pa :: rest) = (fuel + nTags rest) + 1 by simp [nTags]; omega]
+      simp only [parseMain, stAt, ne_eq, show ¬ ((2 : Nat) = 0) by decide, not_false_eq_true, if_true]
+      have hd := (step_var_dispatch cfg c stk acc (pre.length + 5)).1
+      simp only [stAt] at hd hstep
+      rw [hd, hstep]
+      simp only [bind, Except.bind]
+      have := ih (pre ++ ([123, 118, 97, 114, 58] ++ pa ++ [125])) (acc ++ [Tag.var ⟨pre.length + 5, pa.length, 0, 0⟩])
+        fuel o1 m1 o' m' (by rw [hc]; simp [List.append_assoc]) hokr hscr
+        (by simp only [List.length_append, List.length_cons, List.length_nil]
+            rw [show pre.length + (5 + pa.length + (0 + 1)) = pre.length + 5 + pa.length + 1 by omega]
+            exact hn1)
+        (by rw [← hfin]; congr 1; simp [List.length_append]; omega)
+      simp only [stAt] at this
+      have hL : ∀ (w : List Nat), w.length = 5 → (pre ++ (w ++ pa ++ [125])).length = pre.length + 5 + pa.length + 1 := by
+        intro w hw; simp [hw]; omega
+      rw [hL _ rfl] at this
+      simp only [Bool.false_eq_true, if_false, if_true]
+      simpa [tagsOf, List.append_assoc] using this
     | raw pa =>
       simp only [Seg.ok] at hsg
       obtain ⟨hp, h0, h255⟩ := hsg
-      simp only [printSegs, printSeg] at hc
+      simp only [printSegs, printSeg] at hc hfin
       have hat : next c pre.length = .ok (pre.length + 5, 3) := by
-        have g := fun i (hi : i < 5) => get_mid pre [123, 114, 97, 119, 58] (pa ++ [125] ++ printSegs rest) i (by simpa using hi)
-        have hc' : c = pre ++ ([123, 114, 97, 119, 58] ++ (pa ++ [125] ++ printSegs rest)) := by
+        have g := fun i (hi : i < 5) => get_mid pre [123, 114, 97, 119, 58] (pa ++ [125] ++ (printSegs rest ++ post)) i (by simpa using hi)
+        have hc' : c = pre ++ ([123, 114, 97, 119, 58] ++ (pa ++ [125] ++ (printSegs rest ++ post))) := by
           rw [hc]; simp [List.append_assoc]
         apply next_at_raw c pre.length (by omega)
         · have := g 0 (by omega); rw [hc']; simpa using this
@@ -339,35 +339,36 @@ theorem parseMain_segs (cfg : ScanCfg R) (c : List Nat) (hn : c.length + 16 < 42
       simp only [Except.ok.injEq, Prod.mk.injEq] at hnext
       obtain ⟨rfl, rfl⟩ := hnext
       have hlen_le : pre.length + 5 + pa.length + 1 ≤ c.length := by rw [hc]; simp; omega
-      obtain ⟨o', m', hn', _⟩ := next_safe_total c (pre.length + 5 + pa.length + 1) hlen_le
-      cases fuel with
-      | zero => omega
-      | succ f =>
-        have hstep := stepVar_seg c hn true pre pa (printSegs rest) [123, 114, 97, 119, 58] rfl
-          (by rw [hc]) hp h0 h255 acc 3 o' m' hn'
-        simp only [parseMain, stAt, ne_eq, show ¬ ((3 : Nat) = 0) by decide, not_false_eq_true, if_true]
-        have hd := (step_var_dispatch cfg c acc (pre.length + 5)).2
-        simp only [stAt] at hd hstep
-        rw [hd, hstep]
-        simp only [bind, Except.bind, if_true]
-        have := ih (pre ++ ([123, 114, 97, 119, 58] ++ pa ++ [125])) (acc ++ [Tag.raw ⟨pre.length + 5, pa.length, 0, 0⟩])
-          f o' m' (by rw [hc]; simp [List.append_assoc]) hokr hscr
-          (by simp only [List.length_append, List.length_cons, List.length_nil]
-              rw [show pre.length + (5 + pa.length + (0 + 1)) = pre.length + 5 + pa.length + 1 by omega]
-              exact hn') (by simp only [nTags] at hf; omega)
-        simp only [stAt] at this
-        rw [this]
-        simp [tagsOf, List.length_append, List.append_assoc]
-        congr 1; omega
+      obtain ⟨o1, m1, hn1, _⟩ := next_safe_total c (pre.length + 5 + pa.length + 1) hlen_le
+      have hstep := stepVar_seg c hn true pre pa (printSegs rest ++ post) [123, 114, 97, 119, 58] rfl
+        (by rw [hc]; simp [List.append_assoc]) hp h0 h255 stk acc 3 o1 m1 hn1
+      rw [show fuel + nTags (Seg.raw pa :: rest) = (fuel + nTags rest) + 1 by simp [nTags]; omega]
+      simp only [parseMain, stAt, ne_eq, show ¬ ((3 : Nat) = 0) by decide, not_false_eq_true, if_true]
+      have hd := (step_var_dispatch cfg c stk acc (pre.length + 5)).2
+      simp only [stAt] at hd hstep
+      rw [hd, hstep]
+      simp only [bind, Except.bind]
+      have := ih (pre ++ ([123, 114, 97, 119, 58] ++ pa ++ [125])) (acc ++ [Tag.raw ⟨pre.length + 5, pa.length, 0, 0⟩])
+        fuel o1 m1 o' m' (by rw [hc]; simp [List.append_assoc]) hokr hscr
+        (by simp only [List.length_append, List.length_cons, List.length_nil]
+            rw [show pre.length + (5 + pa.length + (0 + 1)) = pre.length + 5 + pa.length + 1 by omega]
+            exact hn1)
+        (by rw [← hfin]; congr 1; simp [List.length_append]; omega)
+      simp only [stAt] at this
+      have hL : ∀ (w : List Nat), w.length = 5 → (pre ++ (w ++ pa ++ [125])).length = pre.length + 5 + pa.length + 1 := by
+        intro w hw; simp [hw]; omega
+      rw [hL _ rfl] at this
+      simp only [Bool.false_eq_true, if_false, if_true]
+      simpa [tagsOf, List.append_assoc] using this
     | math e =>
       simp only [Seg.ok] at hsg
       have hsce := hsc (.math e) (List.mem_cons_self ..)
       simp only [Seg.scanOk] at hsce
       obtain ⟨items0, hitems0⟩ := hsce
-      simp only [printSegs, printSeg] at hc
+      simp only [printSegs, printSeg] at hc hfin
       have hat : next c pre.length = .ok (pre.length + 6, 4) := by
-        have g := fun i (hi : i < 6) => get_mid pre [123, 109, 97, 116, 104, 58] (e ++ [125] ++ printSegs rest) i (by simpa using hi)
-        have hc' : c = pre ++ ([123, 109, 97, 116, 104, 58] ++ (e ++ [125] ++ printSegs rest)) := by
+        have g := fun i (hi : i < 6) => get_mid pre [123, 109, 97, 116, 104, 58] (e ++ [125] ++ (printSegs rest ++ post)) i (by simpa using hi)
+        have hc' : c = pre ++ ([123, 109, 97, 116, 104, 58] ++ (e ++ [125] ++ (printSegs rest ++ post))) := by
           rw [hc]; simp [List.append_assoc]
         apply next_at_math c pre.length (by omega)
         · have := g 0 (by omega); rw [hc']; simpa using this
@@ -380,42 +381,57 @@ theorem parseMain_segs (cfg : ScanCfg R) (c : List Nat) (hn : c.length + 16 < 42
       simp only [Except.ok.injEq, Prod.mk.injEq] at hnext
       obtain ⟨rfl, rfl⟩ := hnext
       have hlen_le : pre.length + 6 + e.length + 1 ≤ c.length := by rw [hc]; simp; omega
-      obtain ⟨o', m', hn', _⟩ := next_safe_total c (pre.length + 6 + e.length + 1) hlen_le
-      obtain ⟨items', hex, _⟩ := exprs_math cfg c pre e (printSegs rest) (by rw [hc]) hsg items0 hitems0
-      cases fuel with
-      | zero => omega
-      | succ f =>
-        have hstep := stepMath_seg cfg c hn pre e (printSegs rest) [123, 109, 97, 116, 104, 58] rfl
-          (by rw [hc]) hsg acc o' m' hn' items' hex
-        simp only [parseMain, stAt, ne_eq, show ¬ ((4 : Nat) = 0) by decide, not_false_eq_true, if_true]
-        have hd : step cfg c (stAt acc (pre.length + 6) 4) = stepMath cfg c (stAt acc (pre.length + 6) 4) := by
-          simp only [step, stAt]; rfl
-        simp only [stAt] at hd hstep
-        rw [hd, hstep]
-        simp only [bind, Except.bind]
-        have := ih (pre ++ ([123, 109, 97, 116, 104, 58] ++ e ++ [125]))
-          (acc ++ [Tag.math items' pre.length (pre.length + 6 + e.length + 1)])
-          f o' m' (by rw [hc]; simp [List.append_assoc]) hokr hscr
-          (by simp only [List.length_append, List.length_cons, List.length_nil]
-              rw [show pre.length + (6 + e.length + (0 + 1)) = pre.length + 6 + e.length + 1 by omega]
-              exact hn') (by simp only [nTags] at hf; omega)
-        simp only [stAt] at this
-        rw [this]
-        simp [tagsOf, itemsAt, hex, List.length_append, List.append_assoc]
-        congr 1; omega
+      obtain ⟨o1, m1, hn1, _⟩ := next_safe_total c (pre.length + 6 + e.length + 1) hlen_le
+      obtain ⟨items', hex, _⟩ := exprs_math cfg c pre e (printSegs rest ++ post)
+        (by rw [hc]; simp [List.append_assoc]) hsg items0 hitems0
+      have hstep := stepMath_seg cfg c hn pre e (printSegs rest ++ post) [123, 109, 97, 116, 104, 58] rfl
+        (by rw [hc]; simp [List.append_assoc]) hsg stk acc o1 m1 hn1 items' hex
+      rw [show fuel + nTags (Seg.math e :: rest) = (fuel + nTags rest) + 1 by simp [nTags]; omega]
+      simp only [parseMain, stAt, ne_eq, show ¬ ((4 : Nat) = 0) by decide, not_false_eq_true, if_true]
+      have hd : step cfg c (stAt stk acc (pre.length + 6) 4) = stepMath cfg c (stAt stk acc (pre.length + 6) 4) := by
+        simp only [step, stAt]; rfl
+      simp only [stAt] at hd hstep
+      rw [hd, hstep]
+      simp only [bind, Except.bind]
+      have := ih (pre ++ ([123, 109, 97, 116, 104, 58] ++ e ++ [125]))
+        (acc ++ [Tag.math items' pre.length (pre.length + 6 + e.length + 1)])
+        fuel o1 m1 o' m' (by rw [hc]; simp [List.append_assoc]) hokr hscr
+        (by simp only [List.length_append, List.length_cons, List.length_nil]
+            rw [show pre.length + (6 + e.length + (0 + 1)) = pre.length + 6 + e.length + 1 by omega]
+            exact hn1)
+        (by rw [← hfin]; congr 1; simp [List.length_append]; omega)
+      simp only [stAt] at this
+      have hL : (pre ++ ([123, 109, 97, 116, 104, 58] ++ e ++ [125])).length = pre.length + 6 + e.length + 1 := by
+        simp; omega
+      rw [hL] at this
+      simpa [tagsOf, itemsAt, hex, List.append_assoc] using this
 
-/-- `parse_segs`: the printed text of a text / var / raw template parses to exactly the tags the
-document implies. -/
+/-- `parse_segs`: the printed text of a text / var / raw / math template parses to exactly the tags
+the document implies. -/
 theorem parse_segs (cfg : ScanCfg R) (segs : List Seg) (hok : ∀ s ∈ segs, s.ok)
     (hsc : ∀ s ∈ segs, s.scanOk cfg.readNum)
     (hn : (printSegs segs).length + 16 < 4294967296) :
     parse cfg (printSegs segs) = .ok (tagsOf cfg (printSegs segs) 0 segs) := by
   obtain ⟨o, m, hnx, _⟩ := next_safe_total (printSegs segs) 0 (Nat.zero_le _)
-  have h0 : finderNext (printSegs segs) ({} : PState R) = .ok (stAt [] o m) := by
+  have h0 : finderNext (printSegs segs) ({} : PState R) = .ok (stAt [] [] o m) := by
     simp [finderNext, hnx, bind, Except.bind, stAt]
-  have hm := parseMain_segs cfg (printSegs segs) hn segs [] ([] : List (Tag R))
-    (2 * (printSegs segs).length + 4) o m rfl hok hsc hnx (by
-      have := nTags_le segs; omega)
+  have hend : next (printSegs segs) (0 + (printSegs segs).length) = .ok ((printSegs segs).length, 0) := by
+    rw [Nat.zero_add]
+    apply next_plain_end _ _ (Nat.le_refl _)
+    intro i h1 h2; omega
+  have hm := parseMain_segs cfg (printSegs segs) hn [] [] segs [] ([] : List (Tag R))
+    (2 * (printSegs segs).length + 4 - nTags segs) o m _ _ (by simp) hok hsc hnx hend
+  have hfu : 2 * (printSegs segs).length + 4 - nTags segs + nTags segs = 2 * (printSegs segs).length + 4 := by
+    have := nTags_le segs; omega
+  rw [hfu] at hm
+  have hlast : parseMain cfg (printSegs segs) (2 * (printSegs segs).length + 4 - nTags segs)
+      (stAt [] ([] ++ tagsOf cfg (printSegs segs) ([] : List Nat).length segs) (printSegs segs).length 0) =
+      .ok (stAt [] ([] ++ tagsOf cfg (printSegs segs) ([] : List Nat).length segs) (printSegs segs).length 0) := by
+    have : 2 * (printSegs segs).length + 4 - nTags segs = (2 * (printSegs segs).length + 3 - nTags segs) + 1 := by
+      have := nTags_le segs; omega
+    rw [this]
+    simp [parseMain, stAt]
+  rw [hlast] at hm
   simp only [stAt] at h0 hm
   simp only [parse, h0, bind, Except.bind, hm, cleanup, List.nil_append, List.length_nil]
 
